@@ -57,6 +57,14 @@ fn ip_of(t: [u8; 4], v6: bool) -> IpAddress {
 fn icmp6(src: [u8; 16], dst: [u8; 16], body: Vec<u8>) -> Vec<u8> {
     ipv6_packet(src, dst, 58, 255, &body, true)
 }
+/// a neighbour advertisement that has crossed a router (hop limit below 255): spoofed from off-link, it teaches nothing
+fn nd_adv_routed(sha: [u8; 6], spa: [u8; 4], hop: u8) -> Vec<u8> {
+    let mut b = vec![136u8, 0, 0, 0, 0x60, 0, 0, 0];
+    b.extend_from_slice(&a6(spa));
+    b.extend_from_slice(&[2, 1]);
+    b.extend_from_slice(&sha);
+    eth_frame(MY_MAC, sha, 0x86dd, &ipv6_packet(a6(spa), a6(MY_IP), 58, hop, &b, true))
+}
 /// neighbour advertisement (op 2) / solicitation (op 1) from a station, the IPv6 counterpart of `arp_reply`
 fn nd_msg(sha: [u8; 6], spa: [u8; 4], op: u16, dst_mac: [u8; 6]) -> Vec<u8> {
     let me = a6(MY_IP);
@@ -259,7 +267,8 @@ impl W {
                                 v["tpa"] = ipj(&ip.dst);
                                 v["spa2"] = ipj(&body[4..20]);
                             }
-                            v["cs"] = json!(csum_ok);
+                            // (a discovery message is only valid with hop limit 255: it has not crossed a router)
+                            v["cs"] = json!(*csum_ok && ip.ttl == 255);
                             return v;
                         }
                     }
@@ -368,6 +377,13 @@ pub fn random(args: &Args) {
         if offload {
             dev.csum.ipv4 = smoltcp::phy::Checksum::Rx;
             dev.hw_ipv4 = true;
+        }
+        // another eighth: a device that verifies ICMPv6 / UDP checksums on receive itself and leaves computing them on
+        // transmit to the stack (Checksum::Tx): everything the interface emits still has to verify
+        if run % 8 == 7 {
+            dev.csum.icmpv6 = smoltcp::phy::Checksum::Tx;
+            dev.csum.udp = smoltcp::phy::Checksum::Tx;
+            dev.csum.icmpv4 = smoltcp::phy::Checksum::Tx;
         }
         let mut c = Config::new(HardwareAddress::Ethernet(EthernetAddress(MY_MAC)));
         c.random_seed = rng.next();
@@ -641,6 +657,7 @@ pub fn random(args: &Args) {
                 let disc = |sha: [u8; 6], spa: [u8; 4], op: u16, dm: [u8; 6]| if v6 { nd_msg(sha, spa, op, dm) } else { arp_reply(sha, spa, op, dm) };
                 let f = match rng.below(5) {
                     0 => disc(mac_of([10, 0, 0, h]), [10, 0, 0, h], 2, MY_MAC),                 // gratuitous but well-formed reply
+                    1 if v6 && steps % 2 == 0 => nd_adv_routed([2, 0, 0, 0, 0xee, h], [10, 0, 0, h], *rng.pick(&[64u8, 254, 61, 1])), // spoofed from off-link
                     1 => disc([2, 0, 0, 0, 9, 9], [192, 168, 1, 77], 2, MY_MAC),                   // spoofed: off-link sender
                     2 => disc([0xff; 6], [10, 0, 0, h], 2, MY_MAC),                                 // non-unicast hardware address
                     3 => disc(mac_of([10, 0, 0, h]), [10, 0, 0, h], 1, [0xff; 6]),                  // request for our address
